@@ -1352,7 +1352,114 @@ impl HashColumn {
 		}
 	}
 
-	pub fn enact_plan(&self, action: LogAction, log: &mut LogReader) -> Result<()> {
+	/// During replay a fully validated record may name an index or ref count table that is not
+	/// open: a newer one (its creation was interrupted: relaunch the reindex) or an older one
+	/// (dropped after its reindex had completed, or never created because index files are
+	/// created lazily when first enacted: queue it for reindexing again). This is done here and
+	/// not while validating, so that a record that later fails its checksum changes nothing.
+	fn prepare_replay_tables(&self, action: &LogAction) {
+		match action {
+			LogAction::InsertIndex(record) => loop {
+				let tables = self.tables.upgradable_read();
+				let reindex = self.reindex.upgradable_read();
+				let known = tables.index.id == record.table ||
+					reindex.queue.iter().any(
+						|e| matches!(e, ReindexEntry::Index(t) if t.id == record.table),
+					);
+				if known {
+					return
+				}
+				if record.table.index_bits() > tables.index.id.index_bits() {
+					log::warn!(
+						target: "parity-db",
+						"Missing table {}, starting reindex",
+						record.table,
+					);
+					let lock = Self::trigger_reindex(tables, reindex, self.path.as_path());
+					std::mem::drop(lock);
+				} else {
+					log::warn!(
+						target: "parity-db",
+						"Missing older index {}. Current is {}. Re-queueing for reindex",
+						record.table,
+						tables.index.id,
+					);
+					let mut reindex = RwLockUpgradableReadGuard::upgrade(reindex);
+					let bits = record.table.index_bits();
+					let position = reindex
+						.queue
+						.iter()
+						.position(|e| {
+							matches!(e, ReindexEntry::Index(t) if t.id.index_bits() > bits)
+						})
+						.unwrap_or(reindex.queue.len());
+					let table = IndexTable::create_new(self.path.as_path(), record.table);
+					reindex.queue.insert(position, ReindexEntry::Index(table));
+					if position == 0 {
+						reindex.progress.store(0, Ordering::Relaxed);
+					}
+				}
+			},
+			LogAction::InsertRefCount(record) => loop {
+				let tables = self.tables.upgradable_read();
+				let reindex = self.reindex.upgradable_read();
+				if tables.ref_count.is_none() {
+					return
+				}
+				let known = tables.get_ref_count().id == record.table ||
+					reindex.queue.iter().any(
+						|e| matches!(e, ReindexEntry::RefCount(t) if t.id == record.table),
+					);
+				if known {
+					return
+				}
+				if record.table.index_bits() > tables.get_ref_count().id.index_bits() {
+					log::warn!(
+						target: "parity-db",
+						"Missing ref count {}, starting reindex",
+						record.table,
+					);
+					let lock =
+						Self::trigger_ref_count_reindex(tables, reindex, self.path.as_path());
+					std::mem::drop(lock);
+				} else {
+					log::warn!(
+						target: "parity-db",
+						"Missing older ref count {}. Current is {}. Re-queueing for reindex",
+						record.table,
+						tables.get_ref_count().id,
+					);
+					let mut reindex = RwLockUpgradableReadGuard::upgrade(reindex);
+					let bits = record.table.index_bits();
+					let position = reindex
+						.queue
+						.iter()
+						.position(|e| {
+							matches!(e, ReindexEntry::RefCount(t) if t.id.index_bits() > bits)
+						})
+						.or_else(|| {
+							reindex
+								.queue
+								.iter()
+								.rposition(|e| matches!(e, ReindexEntry::RefCount(_)))
+								.map(|p| p + 1)
+						})
+						.unwrap_or(0);
+					let table = RefCountTable::create_new(self.path.as_path(), record.table);
+					reindex.queue.insert(position, ReindexEntry::RefCount(table));
+					if position == 0 {
+						reindex.progress.store(0, Ordering::Relaxed);
+					}
+				}
+			},
+			_ => (),
+		}
+	}
+
+	pub fn enact_plan(&self, action: LogAction, log: &mut LogReader, replay: bool) -> Result<()> {
+		if replay {
+			self.prepare_replay_tables(&action);
+		}
 		let tables = self.tables.read();
 		let reindex = self.reindex.read();
 		match action {
@@ -1412,8 +1519,8 @@ impl HashColumn {
 	}
 
 	pub fn validate_plan(&self, action: LogAction, log: &mut LogReader) -> Result<()> {
-		let tables = self.tables.upgradable_read();
-		let reindex = self.reindex.upgradable_read();
+		let tables = self.tables.read();
+		let reindex = self.reindex.read();
 		match action {
 			LogAction::InsertIndex(record) => {
 				if tables.index.id == record.table {
@@ -1426,54 +1533,22 @@ impl HashColumn {
 				{
 					table.validate_plan(record.index, log)?;
 				} else {
-					if record.table.index_bits() < tables.index.id.index_bits() {
-						// The record names an older index that is not on disk: either it was
-						// dropped after its reindex had completed, or it was never created because
-						// of a crash before the first record naming it was fully enacted (index
-						// files are created lazily on enactment). Put it back at its place in the
-						// reindex queue: in the first case the logged drop or a new reindex pass
-						// removes it again, in the second its entries are migrated by the pending
-						// reindex. Rejecting the record would discard the rest of a valid log.
-						log::warn!(
-							target: "parity-db",
-							"Missing older index {}. Current is {}. Re-queueing for reindex",
-							record.table,
-							tables.index.id,
-						);
-						let mut reindex = RwLockUpgradableReadGuard::upgrade(reindex);
-						let bits = record.table.index_bits();
-						let position = reindex
-							.queue
-							.iter()
-							.position(|e| {
-								matches!(e, ReindexEntry::Index(t) if t.id.index_bits() > bits)
-							})
-							.unwrap_or(reindex.queue.len());
-						let table = IndexTable::create_new(self.path.as_path(), record.table);
-						reindex.queue.insert(position, ReindexEntry::Index(table));
-						if position == 0 {
-							reindex.progress.store(0, Ordering::Relaxed);
-						}
-						std::mem::drop(reindex);
-						std::mem::drop(tables);
-						return self.validate_plan(LogAction::InsertIndex(record), log)
+					// A table that is not open: a reindex that has to be relaunched, or an older
+					// index that has to be queued again. Nothing is changed before the whole
+					// record has been validated; `enact_plan` takes care of it.
+					if record.table.index_bits() < MIN_INDEX_BITS || record.table.index_bits() > 63 {
+						return Err(Error::Corruption("Unexpected log index id".to_string()))
 					}
-					// Re-launch previously started reindex
-					// TODO: add explicit log records for reindexing events.
-					log::warn!(
-						target: "parity-db",
-						"Missing table {}, starting reindex",
-						record.table,
-					);
-					let lock = Self::trigger_reindex(tables, reindex, self.path.as_path());
-					std::mem::drop(lock);
-					return self.validate_plan(LogAction::InsertIndex(record), log)
+					IndexTable::skip_plan(log)?;
 				}
 			},
 			LogAction::InsertValue(record) => {
 				tables.value[record.table.size_tier() as usize].validate_plan(record.index, log)?;
 			},
 			LogAction::InsertRefCount(record) => {
+				if tables.ref_count.is_none() {
+					return Err(Error::Corruption("Unexpected log ref count id".to_string()))
+				}
 				if tables.get_ref_count().id == record.table {
 					tables.get_ref_count().validate_plan(record.index, log)?;
 				} else if let Some(table) = reindex
@@ -1484,50 +1559,12 @@ impl HashColumn {
 				{
 					table.validate_plan(record.index, log)?;
 				} else {
-					if record.table.index_bits() < tables.get_ref_count().id.index_bits() {
-						// Older ref count table that is not on disk: see the index case above.
-						log::warn!(
-							target: "parity-db",
-							"Missing older ref count {}. Current is {}. Re-queueing for reindex",
-							record.table,
-							tables.get_ref_count().id,
-						);
-						let mut reindex = RwLockUpgradableReadGuard::upgrade(reindex);
-						let bits = record.table.index_bits();
-						let position = reindex
-							.queue
-							.iter()
-							.position(|e| {
-								matches!(e, ReindexEntry::RefCount(t) if t.id.index_bits() > bits)
-							})
-							.or_else(|| {
-								reindex
-									.queue
-									.iter()
-									.rposition(|e| matches!(e, ReindexEntry::RefCount(_)))
-									.map(|p| p + 1)
-							})
-							.unwrap_or(0);
-						let table = RefCountTable::create_new(self.path.as_path(), record.table);
-						reindex.queue.insert(position, ReindexEntry::RefCount(table));
-						if position == 0 {
-							reindex.progress.store(0, Ordering::Relaxed);
-						}
-						std::mem::drop(reindex);
-						std::mem::drop(tables);
-						return self.validate_plan(LogAction::InsertRefCount(record), log)
+					if record.table.index_bits() < MIN_REF_COUNT_BITS ||
+						record.table.index_bits() > 63
+					{
+						return Err(Error::Corruption("Unexpected log ref count id".to_string()))
 					}
-					// Re-launch previously started reindex
-					// TODO: add explicit log records for reindexing events.
-					log::warn!(
-						target: "parity-db",
-						"Missing ref count {}, starting reindex",
-						record.table,
-					);
-					let lock =
-						Self::trigger_ref_count_reindex(tables, reindex, self.path.as_path());
-					std::mem::drop(lock);
-					return self.validate_plan(LogAction::InsertRefCount(record), log)
+					RefCountTable::skip_plan(log)?;
 				}
 			},
 			_ => {
@@ -2141,9 +2178,9 @@ impl Column {
 		}
 	}
 
-	pub fn enact_plan(&self, action: LogAction, log: &mut LogReader) -> Result<()> {
+	pub fn enact_plan(&self, action: LogAction, log: &mut LogReader, replay: bool) -> Result<()> {
 		match self {
-			Column::Hash(column) => column.enact_plan(action, log),
+			Column::Hash(column) => column.enact_plan(action, log, replay),
 			Column::Tree(column) => column.enact_plan(action, log),
 		}
 	}
